@@ -334,7 +334,11 @@ def find_irrelevant_type(etype: tp.Type, types: List[tp.Type],
         for t in relevant_types
         if isinstance(t, tp.ParameterizedType)
     }
-    available_types = [t for t in types if t not in relevant_types]
+    # The top type is a supertype of every type (even of classes that do not
+    # declare it explicitly), so it is never irrelevant.
+    available_types = [t for t in types
+                       if t not in relevant_types and
+                       t != factory.get_any_type()]
     if not available_types:
         return None
     t = utils.random.choice(available_types)
